@@ -91,11 +91,16 @@ pub async fn run(bin: &str, out_path: &str) -> eyre::Result<()> {
     process_multiple_changes(src.agent.clone(), src.bookie.clone(), with_src(vec![f1]), Duration::from_secs(30)).await?;
     // the future destination authored something the source has
     tx(d2.agent.clone(), "INSERT INTO tests (id, text) VALUES (20, 'dest-twenty')".into()).await;
-    sleep_ms(50).await;
     let mut from_d2 = vec![];
-    while let Ok(m) = d2.opts.rx_bcast.try_recv() {
-        let (BroadcastInput::AddBroadcast(BroadcastV1::Change(cv)) | BroadcastInput::Rebroadcast(BroadcastV1::Change(cv))) = m;
-        from_d2.push(cv);
+    for _ in 0..200 {
+        while let Ok(m) = d2.opts.rx_bcast.try_recv() {
+            let (BroadcastInput::AddBroadcast(BroadcastV1::Change(cv)) | BroadcastInput::Rebroadcast(BroadcastV1::Change(cv))) = m;
+            from_d2.push(cv);
+        }
+        if !from_d2.is_empty() {
+            break;
+        }
+        sleep_ms(50).await;
     }
     process_multiple_changes(src.agent.clone(), src.bookie.clone(), with_src(from_d2), Duration::from_secs(30)).await?;
     // bulk, so that the byte copy of the restore takes a while: the destination gets rows the source never sees
@@ -155,6 +160,21 @@ pub async fn run(bin: &str, out_path: &str) -> eyre::Result<()> {
             let cc: i64 = c.query_row("SELECT COUNT(*) FROM tests__crsql_clock", [], |r| r.get(0))?;
             format!("{}|{}|{}|{}", a.0, a.1, b, cc)
         };
+        // connections that were open (and had pages cached) before the restore: the running agent's read pool
+        let mut pool_digests = vec![];
+        for _ in 0..3 {
+            let conn = d2.agent.pool().read().await?;
+            let r = (|| -> rusqlite::Result<String> {
+                let a: (i64, i64) = conn.query_row("SELECT COUNT(*), COALESCE(SUM(id), 0) FROM tests", [], |r| Ok((r.get(0)?, r.get(1)?)))?;
+                let b: String = conn.query_row("SELECT COALESCE(SUM(LENGTH(text)), 0) || ':' || COALESCE(MIN(text), '') || ':' || COALESCE(MAX(text), '') FROM tests", [], |r| r.get(0))?;
+                let c: i64 = conn.query_row("SELECT COUNT(*) FROM tests__crsql_clock", [], |r| r.get(0))?;
+                Ok(format!("{}|{}|{}|{}", a.0, a.1, b, c))
+            })();
+            pool_digests.push(match r {
+                Ok(d) => d,
+                Err(e) => format!("REFUSED {e}"),
+            });
+        }
         let mut distinct_reads: Vec<String> = reads.iter().filter(|l| l.starts_with("OK ")).map(|l| l[3..].to_string()).collect();
         distinct_reads.sort();
         distinct_reads.dedup();
@@ -162,7 +182,7 @@ pub async fn run(bin: &str, out_path: &str) -> eyre::Result<()> {
             &mut result,
             json!({"self": {"ok": ok2, "log": log2, "changes": kept.as_ref().map(|f| f.0.clone()), "actor": kept.as_ref().map(|f| f.1.clone()), "wanted_actor": d2_actor, "site": if ok2 { site_table(&d2.dir.join("corrosion.db"))? } else { vec![] },
                              "subscriptions_dir_left": d2.dir.join("subscriptions").exists(), "old_digest": before_digest, "new_digest": after_digest,
-                             "reads_ok": reads.iter().filter(|l| l.starts_with("OK ")).count(), "reads_refused": reads.iter().filter(|l| l.starts_with("REFUSED")).count(), "distinct_reads": distinct_reads}}),
+                             "pool_reads_after": pool_digests, "reads_ok": reads.iter().filter(|l| l.starts_with("OK ")).count(), "reads_refused": reads.iter().filter(|l| l.starts_with("REFUSED")).count(), "distinct_reads": distinct_reads}}),
         );
     }
     let mut f = std::io::BufWriter::new(std::fs::File::create(out_path)?);
